@@ -12,8 +12,8 @@ def plan(ctx):
     tier, seed = ctx["tier"], ctx["seed"]
     items = []
     # (a) programs: de-duplication on vs off
-    pools = [("general", 120), ("panic", 120), ("mutation", 60)] if tier == "quick" else \
-        [("general", 600), ("panic", 600), ("mutation", 300), ("wide", 300), ("widepanic", 300)]
+    pools = [("general", 300), ("panic", 300), ("mutation", 150)] if tier == "quick" else \
+        [("general", 2000), ("panic", 2000), ("mutation", 1000), ("wide", 1000), ("widepanic", 1000)]
     for profile, n in pools:
         for i in range(0, n, 10):
             items.append({"kind": "programs", "profile": profile, "seeds": [seed * 100000 + 60000 + i + k for k in range(10)],
